@@ -1064,6 +1064,29 @@ def result_scope(prog: Program) -> RuleResult:
             for node in walk_no_nested(fn):
                 if isinstance(node, (ast.Break,)) :
                     problems.append("a `break` leaves the enumeration early")
+            # every species is tried as the host of the root object: the innermost loop that feeds the result
+            # entry walks the whole species tree (a transfer can put the root anywhere, also below the LCA of
+            # the leaf species)
+            for upd in updates:
+                around = [l for l in loops_around(fn, upd) if isinstance(l, ast.For)]
+                if not around:
+                    continue
+                inner = around[-1]
+                it = inner.iter
+                if isinstance(it, ast.Call) and (dotted(it.func) or "").endswith("tqdm") and it.args:
+                    it = it.args[0]
+                if isinstance(it, ast.Name):
+                    got = reaching(fn, it.id, inner)
+                    it = got if got is not None and not isinstance(got, Opaque) else it
+                whole = (
+                    isinstance(it, ast.Call) and isinstance(it.func, ast.Attribute) and it.func.attr == "traverse"
+                    and isinstance(it.func.value, ast.Attribute) and it.func.value.attr == "tree"
+                )
+                text = ast.unparse(it)
+                if "species" in ast.unparse(inner.target) and not whole:
+                    problems.append(f"the host species of the root object range over `{short(it, 70)}`, not over every species of the tree")
+                elif "species" in ast.unparse(inner.target) and whole and "species" not in text:
+                    problems.append(f"the root hosts range over `{short(it, 70)}`, which is not the species tree")
             if problems:
                 res.fail(construct, "; ".join(sorted(set(problems))), mod, ent)
             else:
